@@ -562,6 +562,9 @@ func checkRequest(r *Run, cr *ConnRec) {
 	hh, hp := hostHdr, "443"
 	if h2, p2, err := splitHostPort(hostHdr); err == nil {
 		hh, hp = h2, p2
+		if hp == "" {
+			hp = "443" // "host:" — an empty port is legal (RFC 3986 3.2.3, RFC 9110 7.2) and means the default
+		}
 	} else if strings.HasPrefix(hostHdr, "[") && strings.HasSuffix(hostHdr, "]") {
 		hh = hostHdr[1 : len(hostHdr)-1]
 	}
